@@ -8,7 +8,7 @@ LEVEL = "exploration"
 RULE = ("cross product noise mode x constraint family (incl. measure-zero hyperplane and thin band: every ES candidate infeasible / "
         "empty search set) x geometry (log x constraints) x budget (incl. N_init-1, N_init, tiny, 1, 2) x max_iter 1,2 x "
         "noise_final_samples 0,1 x repeated-point pressure under specified noise (tight boxes, coarse tol_mesh) x constant/plateau "
-        "targets x many seeds. Refuting event: any exception escaping the constructor of a spec-valid problem or optimize() that was "
+        "targets x one-variable constrained problems with a coarse final mesh (local GP refitted on two training points) x many seeds. Refuting event: any exception escaping the constructor of a spec-valid problem or optimize() that was "
         "not raised by the user's callables; classified by (type, innermost pybads file:function). Non-trivial/distinct = distinct "
         "(mode, constraint, geometry, landscape, rare-path flags) where rare-path flags are MEASURED at the seams (empty ES "
         "generation, empty search set, duplicate merge, second GP fit, local refit)")
@@ -26,7 +26,7 @@ def cases(tier, seed):
         rng = gen.rng_for(seed, "C09", i)
         D = int(rng.choice([1, 2, 3, 4, 5], p=[0.3, 0.35, 0.2, 0.1, 0.05]))
         mode = str(rng.choice(gen.MODES, p=[0.3, 0.15, 0.15, 0.1, 0.3]))
-        fam = str(rng.choice(["plain", "cons-hard", "dup-pressure", "budget-edge", "plateau", "iter-edge", "tiny-sd"], p=[0.17, 0.2, 0.2, 0.18, 0.1, 0.08, 0.07]))
+        fam = str(rng.choice(["plain", "cons-hard", "dup-pressure", "budget-edge", "plateau", "iter-edge", "tiny-sd", "d1-cons"], p=[0.13, 0.17, 0.19, 0.17, 0.1, 0.08, 0.07, 0.09]))
         opts = {}
         cons = "none"
         geom = str(rng.choice(gen.GEOMS))
@@ -67,6 +67,19 @@ def cases(tier, seed):
             geom = str(rng.choice(["lin", "tight", "unb"]))
             mfe = int(rng.choice([120, 160, 200]))
             x0mode = "in"
+        elif fam == "d1-cons":
+            # one variable, a constraint that removes most of the initial design and a coarse final mesh: the local GP is
+            # refitted on TWO (or a handful of equally spaced) training points - degenerate empirical priors
+            D = 1
+            cons = str(rng.choice(["annulus", "ball", "halfspace"], p=[0.5, 0.25, 0.25]))
+            geom = str(rng.choice(["lin", "offcentre", "tight", "wide"]))
+            x0mode = "in"
+            mode = str(rng.choice(["det", "det", "auto", "he"]))
+            land = str(rng.choice(["sphere", "quad", "l1"]))
+            opts["tol_mesh"] = float(rng.choice([0.25, 0.1]))
+            if rng.random() < 0.3:
+                opts["force_poll_mesh"] = True
+            mfe = 40
         elif fam == "plateau":
             land = str(rng.choice(["const", "stair"]))
             mode = str(rng.choice(["det", "auto"]))
@@ -123,7 +136,7 @@ def summarize(records, tier, seed):
             nt.add((s["noise"]["mode"], s["cons"]["kind"], s["geom"], s["target"]["kind"], tuple(sorted(f & set(RARE)))))
     extra = {"status": C.status_hist(records), "rare_paths_reached_runs": rare,
              "rare_paths_never_reached": [k for k, v in rare.items() if v == 0],
-             "families": {k: sum(1 for r in records if r.get("fam") == k) for k in ("plain", "cons-hard", "dup-pressure", "budget-edge", "plateau", "iter-edge", "tiny-sd")},
+             "families": {k: sum(1 for r in records if r.get("fam") == k) for k in ("plain", "cons-hard", "dup-pressure", "budget-edge", "plateau", "iter-edge", "tiny-sd", "d1-cons")},
              "duplicate_merges_total": C.count_sum(records, "duplicate_merges"),
              "completed_runs": sum(1 for r in records if r.get("status") == "ok"),
              "exceptions_by_signature": C.other_property_aborts(records, "C09")}
